@@ -860,4 +860,84 @@ theorem T_C07_tol_squared (s n t : Rat) (hs : 0 ≤ s) (ht : 0 < t) (hsn : s * s
 example : (0 : Rat) ≤ 5 ∧ (5 : Rat) * 5 = V3.norm2 (⟨3, 4, 0⟩ - ⟨0, 0, 0⟩) ∧ tol2 = (1 / 10000000) * (1 / 10000000) := by
   decide +kernel
 
+/-! ### Round 6 -/
+
+/-- **a later definition of the same geometric edge, in either direction and with any data, changes nothing**: once a
+    valid request is the first valid one for its vertex pair, the *only* entry on that pair in the final list is that
+    request — its data, its direction — whatever is requested afterwards (e.g. the neighbouring operation describing the
+    shared edge from its other end with a different curve) -/
+theorem T_C07_opposite_duplicate (pos : Nat → V3) (pre post : List Entry) (r : Entry) (hv : valid pos r = true)
+    (hpre : ∀ q ∈ pre, valid pos q = true → q.same r = false) :
+    r ∈ run pos (pre ++ r :: post) [] ∧ ∀ e ∈ run pos (pre ++ r :: post) [], e.same r = true → e = r := by
+  have hr := T_C07_first_wins pos pre post r hv hpre
+  refine ⟨hr, ?_⟩
+  intro e he hs
+  have hd : Distinct (run pos (pre ++ r :: post) []) := run_distinct (List.Pairwise.nil)
+  exact distinct_unique hd he hr hs
+
+/-- non-vacuity: a spline from vertex 0 to vertex 1, then an arc described from vertex 1 to vertex 0 by the next
+    operation: the spline is the entry, the arc is nowhere -/
+example :
+    let pos : Nat → V3 := fun i => if i = 0 then ⟨0, 0, 0⟩ else ⟨1, 0, 0⟩
+    let r : Entry := ⟨0, 1, { kind := .spline, tag := 1, pts := [⟨1/2, 1/4, 0⟩] }⟩
+    let q : Entry := ⟨1, 0, { kind := .arc, tag := 2, third := some ⟨1/2, -1/4, 0⟩ }⟩
+    valid pos r = true ∧ valid pos q = true ∧ run pos ([] ++ r :: [q]) [] = [r] := by decide +kernel
+
+/-- **the float comparison and the exact one decide alike on inputs with a margin**: let `s ≥ 0` be the exact norm
+    (`s·s = n`), `s'` any computed value of it with absolute error at most `δ < t` (float rounding of `f.norm`), `t` the
+    tolerance.  If the exact squared norm is `0` or beyond `(t + δ)²` — the generated inputs are exactly degenerate or at
+    least 200·TOL away — then `s' < t ↔ n < t²` and `s' > t ↔ n > t²`: `Edge.is_valid` / `ArcEdgeBase.is_valid` in
+    floating point take the branch the model's `valid` takes.  (What remains outside any theorem: inputs inside the band
+    `0 < n ≤ (t + δ)²`, where the two may differ and the property text does not say which is right.) -/
+theorem T_C07_tol_margin (s s' n t δ : Rat) (hs : 0 ≤ s) (hsn : s * s = n) (hδ0 : 0 ≤ δ) (hδt : δ < t)
+    (hlo : s - δ ≤ s') (hhi : s' ≤ s + δ) (hmargin : n = 0 ∨ (t + δ) * (t + δ) < n) :
+    (s' < t ↔ n < t * t) ∧ (s' > t ↔ n > t * t) := by
+  subst hsn
+  rcases hmargin with h0 | hbig
+  · have hs0 : s = 0 := by
+      rcases mul_eq_zero.mp h0 with h | h <;> exact h
+    subst hs0
+    have ht : 0 < t := lt_of_le_of_lt hδ0 hδt
+    have htt : 0 < t * t := mul_pos ht ht
+    constructor
+    · constructor
+      · intro _; linarith
+      · intro _; linarith
+    · constructor
+      · intro h; linarith
+      · intro h; linarith
+  · have ht : 0 < t := lt_of_le_of_lt hδ0 hδt
+    have hst : t + δ < s := by
+      by_contra hc
+      have hc : s ≤ t + δ := not_lt.mp hc
+      nlinarith
+    constructor
+    · constructor
+      · intro h; linarith
+      · intro h; nlinarith
+    · constructor
+      · intro _; nlinarith
+      · intro _; linarith
+
+/-- non-vacuity with the numbers of the check: TOL = 1e-7, rounding error below 1e-9, an edge of length 200·TOL -/
+example : let t : Rat := 1 / 10000000; let δ : Rat := 1 / 1000000000; let s : Rat := 200 * t
+    (0 ≤ s) ∧ (0 ≤ δ) ∧ (δ < t) ∧ ((t + δ) * (t + δ) < s * s) := by decide +kernel
+
+/-- `Edge.is_valid` / `ArcEdgeBase.is_valid` / `EdgeList.find` / `EdgeList.add` as the source writes them (tests in
+    order, comparison operators, the constant compared with): regenerated with `ast` on every run.  The model's `valid`
+    (`kind = line`, `norm² < TOL²`, `norm²(cross) > TOL²`), `find` (set equality of the two index pairs) and `add`
+    (find first; create; append only when valid; return the found or the new edge) mirror exactly these lines -/
+theorem T_C07_source_tests :
+    CBV.Gen.c07SourceTests =
+      [("Edge.is_valid", ["if self.kind == 'line': return False",
+          "if f.norm(self.vertex_1.position - self.vertex_2.position) < constants.TOL: return False", "return True"]),
+       ("ArcEdgeBase.is_valid", ["if super().is_valid: return abs(f.norm(np.cross(arm_1, arm_2))) > constants.TOL",
+          "return False"]),
+       ("EdgeList.find", ["for edge in self.edges",
+          "if {vertex_1.index, vertex_2.index} == {edge.vertex_1.index, edge.vertex_2.index}: return edge",
+          "raise EdgeNotFoundError"]),
+       ("EdgeList.add", ["try: edge = self.find(vertex_1, vertex_2)",
+          "except EdgeNotFoundError: edge = factory.create(vertex_1, vertex_2, data)",
+          "if edge.is_valid: self.edges.append(edge)", "return edge"])] := by decide
+
 end CBV.C07
